@@ -136,8 +136,39 @@ def run(ctx):
     # size limits
     big_ok, big_bad = b"p" * 524280, b"q" * 524281
     cases.append(("Z0", "rm f\nnew\nload f\nopen f\nrec %s 5 %s\nrec %s 6 -\nrec %s 7 -\nclose\n" % (hx(b"o"), hx(big_ok), hx(big_bad), hx(b"o2")) + CHECK))
-    outs, crashes, tos = P.run_cases(b, "depslog", cases, timeout=1200)
+    # record-size boundary: the writer and the reader must agree on the largest record (a record the writer accepts
+    # and the reader rejects is cut off at the next load together with everything written after it)
+    bcases = []
+    for N in list(range(131064, 131076)) + ([] if quick else list(range(131000, 131064, 7)) + [262144, 200000]):
+        bcases.append(("B%d" % N, "rm f\nnew\nload f\nopen f\nrecmany %s 5 %d %s\nrec %s 6 %s\nclose\nnew\nload f\ndumpcounts\nrm f\n" %
+                       (hx(b"big.o"), N, hx(b"d/dep"), hx(b"after.o"), ",".join(hx(x) for x in (b"x.h", b"y.h")))))
+    outs, crashes, tos = P.run_cases(b, "depslog", cases + bcases, timeout=1200)
     report_crashes(ctx, crashes, tos)
+    for cid, _ in bcases:
+        if cid not in outs:
+            continue
+        N = int(cid[1:])
+        lines = outs[cid]
+        recs = [l.split()[1] == "1" for l in lines if l.startswith("REC ")]
+        loads = [l.split() for l in lines if l.startswith("LOAD ")]
+        dc = {bytes.fromhex(l.split()[1]): int(l.split()[3]) for l in lines if l.startswith("DC ")}
+        ctx.evaluations += 1
+        ctx.count("record_size_boundary_cases")
+        if len(recs) != 2 or len(loads) != 2:
+            ctx.inconclusive += 1
+            continue
+        ctx.count("record_size_boundary_%s" % ("accepted" if recs[0] else "refused"))
+        warn = "" if loads[1][2] == "-" else bytes.fromhex(loads[1][2]).decode("latin-1")
+        bad = None
+        if recs[0] and dc.get(b"big.o") != N:
+            bad = "the record of %d dependencies that RecordDeps accepted is gone after reload (%s)" % (N, dc.get(b"big.o"))
+        elif recs[1] and dc.get(b"after.o") != 2:
+            bad = "the record written after a %d-dependency record (%s) is gone after reload" % (N, "accepted" if recs[0] else "refused")
+        elif loads[1][1] != "ok" or warn:
+            bad = "load after a cleanly closed session says %s %r" % (loads[1][1], warn)
+        if bad:
+            ctx.violation("C09/record-size-boundary/%s" % ("writer-accepts-what-reader-rejects" if recs[0] else "after-refused-record"),
+                          "%d dependencies: %s" % (N, bad), {"script": dict(bcases)[cid]})
     bases = {}
     for cid, _ in cases:
         if cid not in outs:
